@@ -6,7 +6,8 @@
 (* Events:                                                                 *)
 (*   newcase                    a fresh set of compressor objects          *)
 (*   frame     key outid ok     one whole frame written by a Writer (C14)  *)
-(*   compress  kind obj depth srcLen dstLen bound n err panicked canary    *)
+(*   compress  kind obj depth srcLen dstLen bound realBound n err panicked  *)
+(*             canary                                                      *)
 (*             srcok srcid outid dec{n,err,same}                           *)
 (*      byte level (big = FALSE):  src, block        - TLC decodes         *)
 (*      field level (big = TRUE):  seqs, parse, total, litsok, matchesok   *)
@@ -36,7 +37,9 @@ Strict(r) == IF r.big THEN StrictValidP(r.seqs, r.srcLen)
 
 Succeeded(r) == r.n > 0 /\ ~r.err /\ r.panicked = ""
 
-C01(r) == r.dstLen >= r.bound => Succeeded(r) /\ Complete(r)
+\* bound = LZ4Block!CompressBound(srcLen); realBound = what the code's CompressBlockBound returned for srcLen:
+\* the promise is about the code's own bound, whatever its formula
+C01(r) == r.dstLen >= r.bound \/ r.dstLen >= r.realBound => Succeeded(r) /\ Complete(r)
 
 C10(r) == Succeeded(r) => Complete(r) /\ Strict(r)
 
